@@ -29,8 +29,8 @@ theorem mem_eraseFirstTs {t : Nat} {c : List Entry} {e : Entry} (h : e ∈ erase
       · subst h; exact List.mem_cons_self
       · exact List.mem_cons_of_mem _ (ih h)
 
-theorem mem_cachePut {k : Nat} {r : Result} {now : Nat} {c : List Entry} {e : Entry}
-    (h : e ∈ cachePut k r now c) : e ∈ c ∨ e = ⟨k, r, now⟩ := by
+theorem mem_cachePut {k : Nat} {r : Result} {now : Nat} {g : Gate} {c : List Entry} {e : Entry}
+    (h : e ∈ cachePut k r now g c) : e ∈ c ∨ e = ⟨k, r, now, g⟩ := by
   unfold cachePut at h
   split at h
   · rcases List.mem_map.mp h with ⟨a, ha, hae⟩
@@ -41,8 +41,8 @@ theorem mem_cachePut {k : Nat} {r : Result} {now : Nat} {c : List Entry} {e : En
     · left; exact h
     · right; simpa using h
 
-theorem mem_cacheStore {k : Nat} {r : Result} {now : Nat} {c : List Entry} {e : Entry}
-    (h : e ∈ cacheStore k r now c) : e ∈ c ∨ e = ⟨k, r, now⟩ := by
+theorem mem_cacheStore {k : Nat} {r : Result} {now : Nat} {g : Gate} {c : List Entry} {e : Entry}
+    (h : e ∈ cacheStore k r now g c) : e ∈ c ∨ e = ⟨k, r, now, g⟩ := by
   unfold cacheStore at h
   simp only at h
   split at h
@@ -71,6 +71,34 @@ theorem run_cache (cfg : Cfg) (H : Hashes) (s : State) (p : Prompt) (zr yr : Res
         simp [consultOut, hp]
   · simp only [↓reduceIte]
     intro e he; left; exact he
+
+/-- an entry in the cache after a request was there before, or was stored under the gate logic configured now -/
+theorem run_cache_gate (cfg : Cfg) (H : Hashes) (s : State) (p : Prompt) (zr yr : Resp) :
+    ∀ e ∈ (run cfg H s p zr yr).1.cache, e ∈ s.cache ∨ e.gate = cfg.gate := by
+  rw [run_eq]
+  cases hr : rejects cfg s.now s.br
+  · simp only [Bool.false_eq_true, ↓reduceIte]
+    rcases afterCircuit_cache cfg H { s with br := enter cfg s.now s.br } p zr yr with h | ⟨z, y, c, _, _, _, _, hc, _, hcache⟩
+    · intro e he; left; exact h e he
+    · intro e he
+      rw [hcache] at he
+      rcases mem_cacheStore he with h | h
+      · left; exact hc e h
+      · right; rw [h]
+  · simp only [↓reduceIte]
+    intro e he; left; exact he
+
+/-- a cache hit is served from an entry of the state's cache, stored under this prompt's key and decided under the
+    gate logic configured now -/
+theorem run_hit_gate (cfg : Cfg) (H : Hashes) (s : State) (p : Prompt) (zr yr : Resp)
+    (hk : (run cfg H s p zr yr).2.kind = .cacheHit) :
+    ∃ e ∈ s.cache, e.key = H.md5 p.id ∧ e.gate = cfg.gate ∧
+      (run cfg H s p zr yr).2 = ⟨.cacheHit, some { e.res with cached := true }⟩ := by
+  rw [run_eq] at hk ⊢
+  cases hr : rejects cfg s.now s.br
+  · simp only [hr, Bool.false_eq_true, ↓reduceIte] at hk ⊢
+    exact afterCircuit_hit_gate cfg H { s with br := enter cfg s.now s.br } p zr yr hk
+  · simp [hr] at hk
 
 /-- the reply of a request: CIRCUIT_OPEN, what the agents' responses determine, a cache hit on an entry stored
     under this prompt's key, or nothing (un-encodable prompt) -/
